@@ -93,3 +93,12 @@ func dumpDir(dir string) string {
 	}
 	return out
 }
+
+// asciiOnly: every byte of s is below 0x80.
+func asciiOnly(s string) bool {
+	ok := true
+	for i := 0; i < len(s); i++ {
+		ok = vxrt.And(ok, s[i] < 0x80)
+	}
+	return ok
+}
